@@ -713,7 +713,9 @@ public:
       if (k >= 1 && k + 1 <= steps - (exited ? 0 : 0) && k + 1 < steps) {
         std::vector<RunRes> cutRuns;
         for (size_t h = 0; h < hosts.size() && !o.violated; h++) {
-          RunRes r = tool[h] ? runTool(v, hosts[h], false, k, false, "") : runLib(v, hosts[h], false, k, 0);
+          bool cutViaXrun = tool[h] == 2 && !v.xsource.empty();      // xrun builds its Processor separately from hexsim
+          RunRes r = tool[h] ? runTool(v, hosts[h], false, k, cutViaXrun, v.xsource) : runLib(v, hosts[h], false, k, 0);
+          if (cutViaXrun) o.count("probe.xrun_level_cut_run");
           sim::g_log.evs("cut_run", hosts[h].str() + " -> " + r.t.str() + " out=" + std::to_string(r.out.size()), k);
           o.count("fault.max_cycles_cut_fired");
           cutRuns.push_back(r);
@@ -739,7 +741,8 @@ public:
       static const uint64_t slack[] = {0, 0, 1, 2, 1000};
       uint64_t k = steps - 1 + slack[v.maxCycles % 5];
       for (size_t h = 0; h < hosts.size() && !o.violated; h++) {
-        RunRes r = tool[h] ? runTool(v, hosts[h], false, k, false, "") : runLib(v, hosts[h], false, k, 0);
+        bool viaX = tool[h] == 2 && !v.xsource.empty();
+        RunRes r = tool[h] ? runTool(v, hosts[h], false, k, viaX, v.xsource) : runLib(v, hosts[h], false, k, 0);
         sim::g_log.evs("limit_not_reached_run", hosts[h].str() + " -> " + r.t.str() + " out=" + std::to_string(r.out.size()), k);
         o.count("fault.max_cycles_at_or_after_exit");
         if (hung(r.t)) { o.note = "skipped:watchdog"; o.count("probe.watchdog_hit"); return; }
